@@ -50,12 +50,15 @@ def _worker_init():
   _quiet()
 
 
-def pytype_pyi(src, skip_repeat_calls=True, empty_to_any=False, fix_simplify=False, fix_closure=False):
+def pytype_pyi(src, skip_repeat_calls=True, empty_to_any=False, fix_simplify=False, fix_closure=False,
+               fix_pytd_sources=False):
   """(pyi text, None) or (None, reason).  The switches are root-cause probes used to fingerprint a violation:
   skip_repeat_calls=False turns pytype's call cache off; empty_to_any=True replaces a call result that is the
   empty value (`nothing`, e.g. sum([]), [] + x) by Any; fix_simplify=True makes abstract_utils.simplify_variable
   give a merged binding one source set per merged binding; fix_closure=True makes LOAD_DEREF push a fresh copy of
-  the cell's bindings instead of the shared (and possibly narrowed-in-place) cell variable."""
+  the cell's bindings instead of the shared (and possibly narrowed-in-place) cell variable; fix_pytd_sources=True
+  makes a stub-defined (PyTD) function source its return value from every possible binding of an argument that is
+  not in the match view, not only from the first one."""
   from pytype import config, io  # pylint: disable=import-outside-toplevel
   from pytype import vm_utils  # pylint: disable=import-outside-toplevel
   from pytype.abstract import function  # pylint: disable=import-outside-toplevel
@@ -82,6 +85,28 @@ def pytype_pyi(src, skip_repeat_calls=True, empty_to_any=False, fix_simplify=Fal
           new_var.AddBinding(bindings[0].data, [b], node)
       return new_var
     abstract_utils.simplify_variable = fixed_simplify
+  from pytype.abstract import _pytd_function  # pylint: disable=import-outside-toplevel
+  orig_cwa = _pytd_function.PyTDSignature.call_with_args
+  if fix_pytd_sources:
+    import itertools as _it  # pylint: disable=import-outside-toplevel
+
+    def fixed_cwa(self, node, func, arg_dict, match, ret_map):
+      # PyTDSignature.call_with_args sources the return value from `match.view.get(v, v.bindings[0])`: for an
+      # argument variable that is not in the match view, its FIRST binding.  Here: one call per combination of the
+      # bindings of those variables that are possible at `node` (each call adds its sources to ret_map[t]).
+      missing = [v for v in arg_dict.values() if v not in match.view and len(v.bindings) > 1]
+      choices = []
+      for v in missing:
+        vis = [b for b in v.bindings if node.HasCombination([b])]
+        choices.append(vis or [v.bindings[0]])
+      combos = list(_it.islice(_it.product(*choices), 8)) if missing else [()]
+      out = None
+      for combo in combos:
+        for v, b in zip(missing, combo):
+          match.view[v] = b
+        out = orig_cwa(self, node, func, arg_dict, match, ret_map)
+      return out
+    _pytd_function.PyTDSignature.call_with_args = fixed_cwa
   orig_cell = vm_utils.load_closure_cell
   if fix_closure:
     def fixed_cell(state, op, check_bindings, ctx):
@@ -127,6 +152,7 @@ def pytype_pyi(src, skip_repeat_calls=True, empty_to_any=False, fix_simplify=Fal
     vm_utils.call_binary_operator = orig_binop
     abstract_utils.simplify_variable = orig_simplify
     vm_utils.load_closure_cell = orig_cell
+    _pytd_function.PyTDSignature.call_with_args = orig_cwa
 
 
 def _pyi_task(src):
@@ -254,6 +280,15 @@ def l0_compare(prog, src, vals, err, rep, pyi, perr, stats):
       stats["names_lower_bound_skipped(call cache)"] += 1
       continue
     if not L0.ty_subset(lo_t, pt):
+      # The lower bound rests on solver completeness (C07).  If the real solver demonstrably drops a binding of
+      # this very name between a node and its unconditioned, non-assigning successor, the disagreement is an
+      # instance of that solver defect (reported as a finding with its own replay), not a defect of the model.
+      why = solver_anomaly(src, "n%d" % x)
+      if why:
+        stats["names_lower_bound_lost_to_solver_anomaly"] += 1
+        viols.append({"kind": "solver-anomaly", "where": "n%d" % x, "type": L0.show_ty(pt),
+                      "value": "(model lower bound %s) %s" % (L0.show_ty(lo_t), why)})
+        continue
       problems.append("n%d: lower bound %s is not below pytype %s" % (x, L0.show_ty(lo_t), L0.show_ty(pt)))
       continue
     if lo_t == up_t:
@@ -313,7 +348,14 @@ def l0_part(res, pool, r, n_gen, corpus):
       res.sample({"l0_program": src, "pytype": {k: L0.show_ty(v) for k, v in L0.parse_pyi_constants(pyi)[0].items()}
                   if pyi else None, "final_worlds_strict": rep[2]})
     for v in viols:
-      report_violation(res, "l0", src, [], v, pool)
+      if v["kind"] == "solver-anomaly":
+        if FP_SOLVER not in _classified:
+          res.violation(FP_SOLVER, "pytype drops a binding the model's lower bound contains: %s %s" %
+                        (v["where"], v["value"]),
+                        {"kind": "l0-solver-anomaly", "src": src, "name": v["where"], "anomaly": v["value"]})
+        _classified[FP_SOLVER] = _classified.get(FP_SOLVER, 0) + 1
+      else:
+        report_violation(res, "l0", src, [], v, pool)
     if problems:
       n_bad += 1
       if len(first_bad) < 3:
@@ -451,6 +493,7 @@ FP_SIMPLIFY = "simplify-variable:merged-bindings-joined-by-conjunction"
 FP_CLOSURE = "closure-cell:load-deref-shares-or-narrows-the-cell"
 FP_METHOD = "method-return:attribute-redefined-outside-defining-class"
 FP_DICTDUP = "dict-display:duplicate-constant-key"
+FP_PYTD = "pytd-call:return-sourced-from-first-binding-of-unmatched-argument"
 FP_SOLVER = "solver:binding-visible-at-a-node-but-not-at-its-unconditioned-successor"
 NO_TIME_CAP = 24 * 3600.0
 
@@ -486,6 +529,8 @@ def classify(src, calls, v0, known):
     fp = FP_SIMPLIFY       # abstract_utils.simplify_variable: AddBinding(data, [b1, b2], node)
   elif not still(src, fix_closure=True):
     fp = FP_CLOSURE        # vm_utils.load_closure_cell
+  elif not still(src, fix_pytd_sources=True):
+    fp = FP_PYTD           # PyTDSignature.call_with_args: match.view.get(v, v.bindings[0])
   elif method_return_attr_store(src, v0):
     fp = FP_METHOD
   elif v0["kind"] == "name" and solver_anomaly(src, v0["where"]):
@@ -696,6 +741,12 @@ def replay(res, path):
   d = json.load(open(path))
   rp = d["replay"]
   src = rp["src"]
+  if rp.get("kind") == "l0-solver-anomaly":
+    print("--- program")
+    print(src)
+    why = solver_anomaly(src, rp["name"])
+    print("--- solver anomaly on %s: %s" % (rp["name"], why))
+    return 1 if why else 0
   calls = [tuple(c) for c in rp.get("calls", [])]
   print("--- program")
   print(src)
